@@ -16,6 +16,10 @@ CLAIMED = {
  'C10': ('proptest-generated section sequences; metamorphic concatenation law + repeat-run determinism (in-process and real binary)',
          'Exploration: delta(S1..Sn) must equal delta(S1)..delta(Sn) byte for byte for generated sequences of git file sections of every kind under all modes; the same case is re-run with fresh hash states and in separate processes and must give identical bytes (also --show-config).',
          'Trusted: section generator emits complete git file diffs; max-line-length kept above header lines.', '3/C10'),
+
+ 'C14': ('proptest-generated sections over the path grammar x tagged option sets with unique label tokens; header rows identified by tag; count/order/containment oracle',
+         'Exploration: the rows painted with file-style must be exactly one per section, in order, naming the path(s), the configured event label, mode change and binary-ness; the rows painted with hunk-header-style exactly one per hunk with something to show, carrying git\'s code fragment, the path and the new-file start when requested.',
+         'Trusted: terminal model and tag attribution; containment (not equality) of paths/labels; git-quoted paths not generated.', '3/C14'),
 }
 hook_commits = subprocess.check_output(['git','-C','/repo','log','--format=%H','--grep','^verif hook:'],text=True).split()
 checks = []
